@@ -11,6 +11,7 @@ import (
 	"sort"
 	"strconv"
 	"strings"
+	"sync/atomic"
 	"time"
 )
 
@@ -69,8 +70,41 @@ func NewCtx(prop, tier string, seed int64, verifDir string) *Ctx {
 			_ = json.Unmarshal(b, &c.Proof)
 		}
 	}
+	go stallMonitor()
 	return c
 }
+
+// ---------------------------------------------------------------- stall monitor
+//
+// Many oracles are watchdogs ("the operation returned within 5 s"). Their premise is that wall-clock
+// time is time the process could use. When the whole sandbox is frozen for a while (a snapshot being
+// taken, the machine suspended) or the process is starved, that premise is false and a watchdog can
+// expire on code that is not blocked at all – this happened once in a background sweep, at the very
+// moment a sandbox snapshot was requested. A goroutine therefore wakes every 20 ms and records the
+// largest delay it observed. A run that reports a violation AND observed a scheduling gap of a second
+// or more exits with StallExit instead of 1; bin/check then repeats the run once (same seed) and
+// reports what the repetition says. A real violation is reported again; nothing is suppressed when
+// the repetition stalls too.
+
+const StallExit = 75
+
+var stallMaxGapMs atomic.Int64
+
+func stallMonitor() {
+	const tick = 20 * time.Millisecond
+	last := time.Now()
+	for {
+		time.Sleep(tick)
+		now := time.Now()
+		if gap := now.Sub(last) - tick; gap.Milliseconds() > stallMaxGapMs.Load() {
+			stallMaxGapMs.Store(gap.Milliseconds())
+		}
+		last = now
+	}
+}
+
+// StallMaxGapMs is the largest scheduling delay (ms) the monitor observed so far in this process.
+func StallMaxGapMs() int64 { return stallMaxGapMs.Load() }
 
 func (c *Ctx) Thorough() bool { return c.Tier == "thorough" }
 
@@ -331,6 +365,7 @@ func (c *Ctx) Finish() int {
 	for k, v := range c.Extra {
 		cov[k] = v
 	}
+	cov["stall_max_gap_ms"] = stallMaxGapMs.Load()
 	ev := map[string]any{
 		"property_id": c.Prop,
 		"tier":        c.Tier,
@@ -346,6 +381,10 @@ func (c *Ctx) Finish() int {
 	_ = os.MkdirAll(dir, 0o755)
 	_ = os.WriteFile(filepath.Join(dir, c.Prop+".json"), append(b, '\n'), 0o644)
 	if c.violations > 0 {
+		if g := stallMaxGapMs.Load(); g >= 1000 && os.Getenv("VERIF_NO_STALL_RETRY") == "" {
+			fmt.Printf("STALLED property=%s: this process was not scheduled for %d ms at some point of the run, so its watchdog verdicts are not reliable; the run is repeated once\n", c.Prop, g)
+			return StallExit
+		}
 		return 1
 	}
 	fmt.Printf("OK property=%s tier=%s seed=%d cases=%d distinct_nontrivial=%d theorems=%d/%d wall=%.1fs\n",
